@@ -11,5 +11,7 @@ CONSTANTS
   MaxDials = 2
   MaxCalls = 3
   MaxStore = 1
+  CtxMode = "returns"
+  MaxStalls = 1
 INVARIANTS TypeOK SuccessOnlyIf KeysAgree PoolIsIssued PoolReturned Destination NoResidue NoResidueState
 PROPERTIES IgnoresNonCritical
